@@ -50,6 +50,12 @@ func handlerFor(name string) func() {
 		appendEvent(map[string]any{"e": "donebegin", "pid": os.Getpid()})
 		daemon.Done()
 		appendEvent(map[string]any{"e": "doneend", "pid": os.Getpid()})
+		// a daemon keeps using its standard streams after start-up (logging): whatever they are connected to must still work
+		for b := 0; b < 4; b++ {
+			fmt.Fprintf(os.Stderr, "%s: heartbeat %d on stderr\n", name, b)
+			fmt.Fprintf(os.Stdout, "%s: heartbeat %d on stdout\n", name, b)
+			time.Sleep(40 * time.Millisecond)
+		}
 		life, _ := strconv.Atoi(os.Getenv("VERIF_DAEMON_LIFE_MS"))
 		if life <= 0 {
 			life = 20000
@@ -69,6 +75,11 @@ func init() {
 
 func caller() {
 	n, _ := strconv.Atoi(os.Getenv("VERIF_NLAUNCH"))
+	// a caller that has changed its own environment before launching (dropped credentials, set a marker)
+	os.Unsetenv("VERIF_SECRET_1")
+	os.Setenv("VERIF_CALLER_MARK", "set-by-caller")
+	os.Unsetenv("VERIF_SECRET_2")
+	os.Unsetenv("VERIF_SECRET_3")
 	var wg sync.WaitGroup
 	for k := 0; k < n; k++ {
 		wg.Add(1)
@@ -152,7 +163,7 @@ func main() {
 					cmd := exec.Command(self)
 					cmd.Env = append(os.Environ(), "VERIF_ROLE=caller", "VERIF_EVENT_FILE="+evfile,
 						fmt.Sprintf("VERIF_DAEMON_DELAY_MS=%d", delay), fmt.Sprintf("VERIF_LAUNCHER_PAUSE_MS=%d", pause),
-						fmt.Sprintf("VERIF_NLAUNCH=%d", nl), fmt.Sprintf("VERIF_DAEMON_LIFE_MS=%d", 12000+delay))
+						"VERIF_SECRET_1=s1", "VERIF_SECRET_2=s2", "VERIF_SECRET_3=s3", fmt.Sprintf("VERIF_NLAUNCH=%d", nl), fmt.Sprintf("VERIF_DAEMON_LIFE_MS=%d", 12000+delay))
 					cmd.Start()
 					callerPid := cmd.Process.Pid
 					done := make(chan struct{})
@@ -165,6 +176,7 @@ func main() {
 						cmd.Process.Kill()
 						<-done
 					}
+					time.Sleep(400 * time.Millisecond) // the daemons go on for a while (heartbeats on their standard streams) before they are looked at
 					evs := readEvents(evfile)
 					var extra []map[string]any
 					var daemons []int
